@@ -85,7 +85,8 @@ def stats(raw):
 
 
 # seed, perturbation, incarnations, size, style, ?, ?, race_suspend=2: a helper submits low-priority tasks while main calls suspend()
-FINDING_RUNS = {'C05-suspend-lowprio': [[12, 0, 2, 6, -1, 0, -1, 2], [2, 0, 2, 6, -1, 0, -1, 2], [3, 0, 2, 6, -1, 0, -1, 2], [4, 0, 2, 6, -1, 0, -1, 2]],
+FINDING_RUNS = {'C05-suspend-lowprio': [[12, 0, 2, 6, -1, 0, -1, 2], [2, 0, 2, 6, -1, 0, -1, 2], [3, 0, 2, 6, -1, 0, -1, 2], [4, 0, 2, 6, -1, 0, -1, 2],
+                                        [5, 0, 2, 6, -1, 0, -1, 2], [6, 0, 2, 6, -1, 0, -1, 2], [7, 0, 2, 6, -1, 0, -1, 2], [8, 0, 2, 6, -1, 0, -1, 2]],
                 # smode 5: every worker held between its store of `sleeping` and the condition-variable wait until
                 # stop() has sent all its notifications (directed, released from state only)
                 'C05-stop-suspended-lostwake': [[1, 0, 1, 3, 0, 2, 1, 0, 5], [2, 0, 1, 3, 3, 3, 4, 0, 5]]}
